@@ -1,7 +1,7 @@
 """C13 - Any query gets a well-formed reply or none; the server never panics."""
 import os
-from checklib import cbool, clist
-from props.corecase import file_to_coq, shrink_file, BACKENDS, response_class
+from checklib import cbool, clist, copt
+from props.corecase import file_to_coq, shrink_file, BACKENDS, response_class, cbytes
 
 ID = "C13"
 HARNESS = "c13"
@@ -19,23 +19,27 @@ RULE = ("arbitrary wire-valid query messages (packed by miekg/dns and unpacked a
         "with EDNS sizes 0, 512, 600, 700-900, 1232, 4096, with and without client-subnet options (v4 /24, v6 /56, v6 /128, "
         "behind a COOKIE) and DO, sent over a UDP and a TCP writer; plus a history class: handlers with the response cache "
         "ENABLED (LRU 1024, or 2 for evictions) on 3 databases (quick), 6 questions each (declared names, descendants, zone "
-        "apexes, names below delegations, the root, other classes; name bytes, client, client-subnet option and max fixed per "
-        "question), queries asked one after the other: case +cache = warm-up (nothing | every question with a bad EDNS version "
+        "apexes, names below delegations, the root, other classes; client, client-subnet option and max fixed per "
+        "question; the name spelled in the question's base letter case or - half of the queries on a warm entry and of the "
+        "version-0 warm-up queries, a third of the first judged ones - in a random other case), queries asked one after the other: case +cache = warm-up (nothing | every question with a bad EDNS version "
         "first | version 0 then a bad version), judged 4-6 queries per question in a row without OPT / with a version-0 OPT "
         "bare, with the client-subnet option, with unknown options, with both, other ids, flags and opcodes (cold first, then "
         "on the warm cache); case +cache+badvers = warm-up of version-0 / no-OPT queries (sometimes after a bad-version one), "
         "judged the same questions with EDNS versions 1, 2, 255, random, bare / with the client-subnet option / with unknown "
         "options / with both, some with another opcode, and two questions never asked before (cold); warm-up queries are "
         "asked but not judged; non-trivial = distinct (database class, query name, type, class, EDNS shape, response class, "
-        "served from the cache or not)")
+        "served from the cache or not, populated under the same or another spelling)")
 TRUSTED_BASE = [
     "messages are wire-valid by construction (miekg Pack then Unpack); zero-question messages are not sent: fbserver/serve_mux.go answers them without calling the handler",
     "packability of the reply is observed on the implementation (Pack / Unpack of what was written), not modelled; the size clause is observed on the implementation (length of Pack() of what a UDP writer received, TC, record counts against the TCP reply), the model stops before SizeAndDo / Scrub",
     "client location and echoed ECS option are oracles observed per backend",
-    "history cases: the serve model has no cache; it is evaluated per query, so a reply served from the cache must be the reply the "
-    "cache-free model computes (C12: the cache is invisible); a cached answer keeps the owner-name case of the first asker, so all "
-    "queries of one question use the same name bytes; whether a query was served from the cache is read from the DNS_cache.hit "
-    "counter and only used for the statistics",
+    "history cases: the serve model has no cache; it is evaluated per query. For a query the handler served from the cache (its "
+    "DNS_cache.hit counter moved - observed, per backend) the model owes the outcome of the request spelled as the query that "
+    "populated the entry, re-addressed to this request (id, question bytes exactly as asked, OPT) - the right-hand side of "
+    "C12_cached_is_case_variant_of_uncached (Model/Compose rename / requestion); the populating spelling is derived by the "
+    "harness from the history and the observations: the latest earlier query with the same observed location, type, class and "
+    "lower-cased name that was not served from the cache and carried no unsupported EDNS version. spec_ok never looks at it: "
+    "id and question must be the asker's own, byte for byte",
 ]
 ASSUMPTIONS = ["one question per message"]
 
@@ -45,9 +49,16 @@ def udp_to_coq(u):
                                           u["nrecs_tcp"], cbool(bool(u["panic"])), cbool(u["packerr"]))
 
 
+def first_to_coq(q):
+    """per backend: the spelling that populated the cache entry this query was served from"""
+    f = q.get("first") or {}
+    return clist([copt(cbytes(f[b]) if f.get(b) else None) for b in BACKENDS])
+
+
 def to_coq(c):
     udp = [clist([udp_to_coq(q["udpobs"][b]) for b in BACKENDS]) for q in c["queries"] if q.get("udpobs")]
-    return "(mkC %s %s)" % (file_to_coq(c), clist(udp))
+    first = [first_to_coq(q) for q in c["queries"]] if c.get("cache") and not c["compile_err"] else []
+    return "(mkC %s %s %s)" % (file_to_coq(c), clist(udp), clist(first))
 
 
 def nontrivial(c):
@@ -62,6 +73,8 @@ def nontrivial(c):
                 k += [u["limit"], u["tc"], 0 <= u["limit"] - u["len"] <= 24]
             if c.get("cache"):
                 k += ["cache-hit" if (q.get("cache_hit") or {}).get("cdb") else "cache-miss"]
+                f = (q.get("first") or {}).get("cdb")
+                k += ["other-spelling" if f and f != q["name"] else "same-spelling"]
             keys.append(k)
     return keys or None
 
